@@ -210,6 +210,39 @@ def deterministic_oracles(ctx, rng):
                            {'refitted': {'tau': obj.tau, 'theta': obj.theta}, 'fresh': {'tau': fresh.tau, 'theta': fresh.theta}},
                            'a re-fitted model samples like a fresh model fitted on the same data (stream = f(parameters, seed))',
                            f'{fam}.sample:refit-differs-from-fresh')
+    # (v) repeated calls on one seeded model: the model's own stream advances from call to call and is a function of
+    # (parameters, seed, call number) only — whatever the global NumPy state is before each call
+    for fam in B.FAMS:
+        th = B.theta_grid(fam)[3] if fam != 'gumbel' else 2.0
+        seqs = []
+        try:
+            for gseed in (11, 977):
+                m = B.make(fam, th, B.tau_of(fam, th))
+                m.set_random_state(4242)
+                np.random.seed(gseed)
+                calls = []
+                for k in range(4):
+                    calls.append(np.asarray(m.sample(6), dtype=float).copy())
+                    np.random.rand(k + 1)    # the caller uses the global generator between calls
+                seqs.append(calls)
+        except Exception as e:  # noqa
+            found += 1
+            ctx.fail_input(f'{fam}.sample', {'theta': th, 'history': '4 calls of sample(6) on one seeded model'},
+                           f'{vc.exc_kind(e)}: {e}'[:200], 'repeated sampling works', f'{fam}.sample:repeated-call-raises')
+            continue
+        checked += 1
+        a, b = seqs
+        same_across_globals = all(np.array_equal(x, y) for x, y in zip(a, b))
+        advancing = all(not np.array_equal(a[i], a[j]) for i in range(4) for j in range(i + 1, 4))
+        if not (same_across_globals and advancing):
+            found += 1
+            ctx.fail_input(f'{fam}.sample', {'theta': th, 'model_seed': 4242, 'global_seeds': [11, 977],
+                                             'history': '4 calls of sample(6) on one seeded model, global generator used in between'},
+                           {'calls_identical_to_each_other': [[bool(np.array_equal(a[i], a[j])) for j in range(4)] for i in range(4)],
+                            'same_under_both_global_states': [bool(np.array_equal(x, y)) for x, y in zip(a, b)],
+                            'first_rows': [c_[0].tolist() for c_ in a]},
+                           'call k of a seeded model is a function of (parameters, seed, k) only and differs from the other calls',
+                           f'{fam}.sample:repeated-calls-not-an-advancing-private-stream')
     return checked, found
 
 
